@@ -365,5 +365,89 @@ class C19(Check):
         from checks import replay_server
         return replay_server.replay_c19(name, model, rec)
 
+    def bounded_stand_in(self, tier, undecided):
+        """session/memory.py outside the interpreted subset (or its proof script no longer matching): the real
+        InMemorySessionManager against a dict model on EVERY operation sequence up to a stated length over a small
+        alphabet (bounded, never counted as proved)."""
+        if not any("session/memory.py" in u for u in undecided):
+            return []
+        import itertools
+        from unittest import mock
+        from chuk_mcp.server.session.memory import InMemorySessionManager
+        depth = 5 if tier == "thorough" else 4
+        ops = ["create", "create_meta", "get0", "get_missing", "touch0", "touch_missing", "del0", "del_missing",
+               "tick1", "tick3600", "clean0", "clean1", "clean_default", "list", "count"]
+        n = 0
+        for seq in itertools.product(ops, repeat=depth):
+            n += 1
+            clock = [1000.0]
+            with mock.patch("time.time", lambda: clock[0]):
+                m = InMemorySessionManager()
+                model, order = {}, []
+                for step, op in enumerate(seq):
+                    def bad(observed, required):
+                        return [dict(name="session_map", reproduced=True, input=list(seq[:step + 1]), observed=observed,
+                                     required=required, bound=f"all operation sequences of length {depth}")]
+                    try:
+                        if op in ("create", "create_meta"):
+                            meta = {"k": step} if op == "create_meta" else None
+                            ci = {"name": f"c{step}"}
+                            sid = m.create_session(ci, f"v{step}", meta)
+                            if sid in model or not isinstance(sid, str):
+                                return bad(f"id {sid!r} reused or not a str", "a fresh str id")
+                            model[sid] = dict(client_info=ci, protocol_version=f"v{step}", created_at=clock[0],
+                                              last_activity=clock[0], metadata=meta or {})
+                            order.append(sid)
+                        elif op in ("get0", "get_missing"):
+                            sid = order[0] if (op == "get0" and order) else "missing"
+                            got = m.get_session(sid)
+                            if (got is None) != (sid not in model):
+                                return bad(f"get_session({sid!r}) -> {got!r}", "record iff present")
+                        elif op in ("touch0", "touch_missing"):
+                            sid = order[0] if (op == "touch0" and order) else "missing"
+                            r = m.update_activity(sid)
+                            if r != (sid in model):
+                                return bad(f"update_activity({sid!r}) -> {r!r}", sid in model)
+                            if sid in model:
+                                model[sid]["last_activity"] = clock[0]
+                        elif op in ("del0", "del_missing"):
+                            sid = order[0] if (op == "del0" and order) else "missing"
+                            r = m.delete_session(sid)
+                            if r != (sid in model):
+                                return bad(f"delete_session({sid!r}) -> {r!r}", sid in model)
+                            model.pop(sid, None)
+                        elif op.startswith("tick"):
+                            clock[0] += float(op[4:])
+                        elif op.startswith("clean"):
+                            lim = {"clean0": 0, "clean1": 1, "clean_default": 3600}[op]
+                            r = m.cleanup_expired() if op == "clean_default" else m.cleanup_expired(lim)
+                            gone = [k for k, v in model.items() if clock[0] - v["last_activity"] > lim]
+                            for k in gone:
+                                del model[k]
+                            if r != len(gone):
+                                return bad(f"cleanup_expired({lim}) -> {r!r}", len(gone))
+                        elif op == "list":
+                            r = m.list_sessions()
+                            if r is m.sessions or set(r) != set(model):
+                                return bad("list_sessions() is the store itself or has other keys", "an equal copy")
+                        elif op == "count":
+                            if m.get_session_count() != len(model):
+                                return bad(f"get_session_count() -> {m.get_session_count()}", len(model))
+                    except Exception as ex:
+                        return bad(f"{type(ex).__name__}: {ex}", "no exception")
+                    # whole-map comparison after every operation
+                    if set(m.sessions) != set(model):
+                        return bad(f"keys {sorted(m.sessions)}", f"keys {sorted(model)}")
+                    for k, v in model.items():
+                        rec_ = m.sessions[k]
+                        got = dict(client_info=rec_.client_info, protocol_version=rec_.protocol_version,
+                                   created_at=rec_.created_at, last_activity=rec_.last_activity, metadata=rec_.metadata)
+                        if got != v or rec_.session_id != k:
+                            return bad(f"record {k}: {got}", v)
+                order = [k for k in order if k in model]
+        return [dict(name="session_map", reproduced=False, cases=n, covers="session/memory.py::InMemorySessionManager",
+                     bound=f"all {len(ops)}^{depth} operation sequences over {len(ops)} operations, whole map compared "
+                           f"with a dict model after every step (bounded, not a proof)")]
+
 
 CHECK = C19()
